@@ -122,6 +122,23 @@ def model_check(name, module, cfg, wd, workers=8, timeout=1800):
     return {"name": name, "states": dist, "transitions": gen, "wall_s": round(time.time() - t, 1)}
 
 
+def prove(module, wd):
+    """P: lemmas the specification's operators rely on for inputs beyond the model-checked bounds, checked by tlapm."""
+    t = time.time()
+    src = os.path.join(SPEC, "proofs", module)
+    d = os.path.join(wd, "proofs")
+    os.makedirs(d, exist_ok=True)
+    shutil.copy(src, d)
+    r = run(["tlapm", "--threads", "4", module], 600, cwd=d)
+    out = r.stdout
+    m = re.search(r"All (\d+) obligations? proved", out)
+    shutil.rmtree(d, ignore_errors=True)
+    if r.returncode != 0 or not m:
+        open(os.path.join(wd, f"proof_{module}.out"), "w").write(out)
+        raise ToolError(f"proof of {module} failed (see {wd}/proof_{module}.out)")
+    return {"name": "tlapm:" + module, "obligations_proved": int(m.group(1)), "states": 0, "transitions": 0, "wall_s": round(time.time() - t, 1)}
+
+
 VEC = re.compile(r'^("VEC .*")$')
 
 
@@ -264,6 +281,8 @@ def check(prop, tier, seed):
             continue
         mc_stats.append(model_check(m["name"], m["module"], m["cfg_quick"] if quick else m.get("cfg_thorough", m["cfg_quick"]), wd,
                                     workers=m.get("workers", 8), timeout=m.get("timeout", 3000)))
+    for pm in plan.get("proofs", []):
+        mc_stats.append(prove(pm, wd))
     # A
     inputs = []
     for g in plan.get("gen", []):
